@@ -122,11 +122,14 @@ def exact_flag(stat, l):
 
 
 def within(stat, impl, ref, l):
-    """|impl - textbook| <= 1e-9 * max(|textbook|, max|x|), exact rational arithmetic; Var: impl is the std"""
+    """|impl - textbook| <= 1e-9 * max(|textbook|, max|x|), exact rational arithmetic.
+    Var (impl is the std): |impl - sqrt(ref)| <= 1e-9 * sqrt(ref) + 1e-12 * max|x|.  The second term covers what a
+    backward-stable evaluation cannot avoid (perturbing the inputs by one ulp moves the std by ~1e-16 * max|x|; the
+    two-pass formula stays within ~n * 1e-16 * max|x|), with a margin of > 100 for n <= 40."""
     x = Fraction(impl)
     big = max([abs(v) for v in l] + [0])
     if stat == 'Var':
-        tol = TOL * big * 2
+        tol = TOL * Fraction(math.sqrt(float(ref))) * (1 + TOL) + Fraction(1, 10 ** 12) * big
         lo = x - tol
         return x >= 0 and (lo <= 0 or lo * lo <= ref) and ref <= (x + tol) ** 2
     tol = TOL * max(abs(ref), big)
@@ -201,7 +204,8 @@ class C12:
         'IEEE rounding is not modelled: the model computes with exact rationals. The float returned by the '
         'implementation is compared EXACTLY inside Coq with the model rational on inputs where every floating-point '
         'operation is exact (classified conservatively by the harness from the input only); on all other inputs the '
-        'comparison is |impl - ref| <= 1e-9 * max(|ref|, max|x_i|) (std: the same bound on the root), evaluated in '
+        'comparison is |impl - ref| <= 1e-9 * max(|ref|, max|x_i|) (std: |impl - sqrt(var)| <= 1e-9 * sqrt(var) + '
+        '1e-12 * max|x_i|, i.e. relative on the result plus the error a backward-stable evaluation cannot avoid), evaluated in '
         'exact Fraction arithmetic on the Python side, where ref is a Fraction evaluation of the textbook formula '
         'that Coq checks to be EQUAL to the L0 (resp. L1) rational on every case, so the Coq value is what is compared',
         'cells are finite numbers, strings, None, NaN; a column holding an infinity is outside the quantifier '
@@ -302,6 +306,27 @@ class C12:
                 pyfail.append('%s: implementation returned %r, textbook value %s (= %.17g%s) differs by more than '
                               '1e-9 relative' % (ATTR[s], x, r0, math.sqrt(r0) if s == 'Var' else float(r0),
                                                  ', root of the variance' if s == 'Var' else ''))
+        if inp.get('cross') and scope:
+            # the same numbers in the other column types: the implementations must agree with each other as well
+            numsonly = [c for c in cells if is_num(c)]
+            others = [k for k in KINDS if k != kind and (k != 'KInt' or all(type(c) is int for c in numsonly))]
+            for k2 in others:
+                try:
+                    cells2, obs2, _u2, _c2 = self._observe(k2, numsonly if k2 == 'KInt' else [plain(c) for c in cells])
+                except Exception as e:      # noqa: BLE001
+                    pyfail.append('%s holding the same cells raised %r' % (k2, e))
+                    continue
+                l2 = nums_l0(cells2)
+                for s in STATS:
+                    a, b = obs[s], obs2[s]
+                    r0 = textbook(s, l0)
+                    if r0 is None or not l0 or math.isnan(a) or math.isnan(b) or math.isinf(a) or math.isinf(b):
+                        continue
+                    if not (within(s, a, r0, l0) and within(s, b, r0, l2)):
+                        if s not in verdict:
+                            verdict.append(s)
+                        pyfail.append('%s: %s gives %r, %s gives %r on the same numbers (textbook %.17g)' % (
+                            ATTR[s], kind, a, k2, b, math.sqrt(r0) if s == 'Var' else float(r0)))
         cl = cells_lit(cells)
         ul = cells_lit(u)
         n_junk = len(cells) - len(l0)
@@ -315,7 +340,8 @@ class C12:
             tags.append('some-exact')
         return {
             'input': dict({'kind': kind, 'vals': inp['vals'], 'tags': inp.get('tags', [])},
-                          **({'edits': inp['edits']} if inp.get('edits') else {})),
+                          **dict(({'edits': inp['edits']} if inp.get('edits') else {}),
+                                 **({'cross': True} if inp.get('cross') else {}))),
             'observed': {'cells': enc_list(cells), 'stats': {ATTR[s]: obs[s].hex() for s in STATS},
                          'unique': enc_list(u), 'count': cnt, 'py_verdict': verdict},
             'pyfail': '; '.join(pyfail) if pyfail else None,
@@ -448,6 +474,32 @@ class C12:
             add('KFloat', vals, ['exact-std'])
             if all(type(v) is int for v in vals):
                 add('KInt', vals, ['exact-std'])
+        # 6. large offset, small spread (ill-conditioned for one-pass variance formulas), all column types + agreement
+        for _ in range(45 if quick else 500):
+            off = rng.choice([10 ** 6, 10 ** 6, 10 ** 7, 10 ** 8, 10 ** 9, 10 ** 10, 10 ** 12]) * rng.choice([1, 1, 3, -1]) \
+                + rng.randint(0, 999)
+            spread = rng.choice([1, 2, 4, 10, 30, 100])
+            n = rng.randint(3, 8)
+            if rng.random() < 0.5:
+                vals = [off + rng.randint(0, spread) for _i in range(n)]
+            else:
+                vals = [float(off) + rng.randint(0, spread * 8) / 8.0 + rng.choice([0.0, 0.0, 0.3]) for _i in range(n)]
+                vals = [int(v) if v.is_integer() else v for v in vals]
+            if rng.random() < 0.5:
+                vals[rng.randrange(n)] = vals[rng.randrange(n)]        # a repeat
+            if max(vals) == min(vals):
+                vals[0] = vals[0] + 1
+            allint = all(type(v) is int for v in vals)
+            for kind in KINDS:
+                if kind == 'KInt' and not allint:
+                    continue
+                v2 = list(vals)
+                if kind != 'KInt' and rng.random() < 0.3:
+                    v2.insert(rng.randrange(n + 1), self.junk(rng, kind))
+                c = self.rerun({'kind': kind, 'vals': enc_list(v2), 'tags': ['offset-spread'], 'cross': kind == 'KMixed'})
+                if c is not None and c['sig'] not in seen:
+                    seen.add(c['sig'])
+                    cases.append(c)
         # 5. statistics read, column modified through each write path, statistics read again
         for _ in range(120 if quick else 1200):
             base = self.numbers(rng, 8)
@@ -514,6 +566,8 @@ class C12:
     def shrink_candidates(self, inp):
         vals = inp['vals']
         base = {'kind': inp['kind'], 'tags': inp.get('tags', []), 'may_reject': True}
+        if inp.get('cross'):
+            base['cross'] = True
         if inp.get('edits'):
             ed = inp['edits']
             for i in range(len(ed)):
